@@ -17,7 +17,7 @@ OBLIGATIONS = [
     "C04/P_nonvacuous.v",
 ]
 REFUTATIONS = ['C04/P_refuted.v']
-PROOF_MODULES = []   # compiled by hand until listed in coq/_CoqProject (see the report)
+PROOF_MODULES = A.PROOF_MODULES
 
 CORPUS_P = [
     "P mul ;; (sqrt (pow x (i 2))) ;; (sqrt (pow x (i 2))) ;; x",
